@@ -475,5 +475,9 @@ def r4_cleanup(P, rep, ctx):
               and f.all_hit_before(pd, edges=empty)  # parent removed only when empty
               and all(f.hit_before(g.exit, nodes=pd, src_edge=e) for e in empty)  # and then always
               and all(f.hit_before(t, nodes=cd) for t in f.test_nodes(empty)))
+        if q.endswith("MetadorMeta._del_raw"):
+            # the emptiness is read off the in-memory table: the entry must have left the table before it is consulted
+            forgot = f.deletes("self._objs[__k]") + [i for i, c_, b_ in f.call_sites("self._objs.pop(___)")]
+            ok = ok and bool(forgot) and all(f.hit_before(t, nodes=forgot) for t in f.test_nodes(empty))
         rep.check(ok, "C06.R4", fi.qual, f"after `del {child_del[:50]}` the parent is tested for emptiness and removed when empty", fi.loc(), construct=f"cleanup after del {child_del}",
                   message=f"{q}: after `del {child_del}` the emptiness test / removal `del {parent_del}` is not on every path: an empty bookkeeping group is left behind (or a non-empty one removed)")
